@@ -74,13 +74,20 @@ def do_call(I, kind, named_s, call, log, ns, nc, probes=False, other=None):
         raise HarnessError("unknown call " + call)
 
 
-def driver_calls(calls, other=None):
+def driver_calls(calls, other=None, primary=None):
     out = []
+    on_other = False
     for c in calls:
         name, _, arg = c.partition(":")
         if name == "init2":
             out.append(("next", other[0], other[1]))
             out.append("init")
+            on_other = True
+            continue
+        if name == "init" and on_other and primary is not None:
+            out.append(("next", primary[0], primary[1]))       # back to the first script
+            out.append("init")
+            on_other = False
             continue
         if name == "fetch2":
             out += ["fetch", "fetch"]
@@ -183,7 +190,7 @@ def report_safety(rec, I, kind, named_s, calls, desc, option, other=None):
                     rec.oblig(name + " (no model for replay)", "inconclusive", "", 0, desc)
                     continue
             named_c = concretize(named_s, m)
-            out = sandriver.run_scenario(kind, named_c, ["init"] + driver_calls(calls, other))
+            out = sandriver.run_scenario(kind, named_c, ["init"] + driver_calls(calls, other, (kind, named_c)))
             r = {"ok": out["status"] != "ok", "report": out["report"], "scenario": out["scenario"]}
             _replayed[sig] = r
         rec.violation(sig, "%s: %s [%s] sanitizer build: %s" % (name, f["detail"], desc, r["report"][:300].replace("\n", " | ")),
